@@ -30,6 +30,10 @@ pub enum Kind {
     Built { len: u8 },
     /// the shared object of the root's ZstCache (never named by an op)
     ZstShared,
+    /// `Gc<RefLock<BagBody>>`: edges in every element position of the std containers the crate
+    /// provides Collect impls for (tuples first / last / nested, arrays, Box, Rc, LinkedList,
+    /// VecDeque, BinaryHeap, BTreeMap key and value, BTreeSet, HashMap, nested Option, Result::Err)
+    Bag,
 }
 
 impl Kind {
@@ -47,11 +51,13 @@ impl Kind {
             Kind::Slice { len } => len as usize,
             Kind::Swh { len } => 1 + len as usize,
             Kind::Lay { .. } | Kind::Built { .. } | Kind::ZstShared => 0,
+            Kind::Bag => BAG_STRONG,
         }
     }
     pub fn n_weak(self) -> usize {
         use crate::payload::*;
         match self {
+            Kind::Bag => BAG_WEAK,
             Kind::Node => NODE_WEAK,
             Kind::Field => FIELD_WEAK,
             Kind::Raw => RAW_WEAK,
